@@ -1,0 +1,20 @@
+// SPDX-FileCopyrightText: 2026 The Pion community <https://pion.ly>
+// SPDX-License-Identifier: MIT
+
+//go:build !verif
+
+// Package verifhook provides named observation and yield points for
+// runtime verification. Without the "verif" build tag every function
+// is empty and inlines away.
+package verifhook
+
+// Point is a named yield point.
+func Point(string) {}
+
+// Observe records a named event.
+func Observe(string, any, int64, int64) {}
+
+// Bracket brackets a state store; the returned func ends the bracket.
+func Bracket(string, any, func() int64) func() { return nop }
+
+func nop() {}
